@@ -137,19 +137,28 @@ func runDiff(ops []Op) diffOut {
 		if op.TTL == ttlShort {
 			shortEpoch[op.Key] = epoch
 		}
-		writer := ""
+		writer, stored := "", kstate{}
 		if e := m.keys[op.Key]; e != nil {
-			writer = e.writer
+			writer, stored = e.writer, e.st
 		}
 		nm, nr, nw := normDiff(op, gm), normDiff(op, gr), normDiff(op, wantForDiff(op, want))
+		if op.Kind == "SetExpiration" && strings.HasPrefix(class, "expired-") && gm.Err == "" {
+			// the answers are not compared across backends (see normDiff), but on the memory side an
+			// accepted SetExpiration brings the expired value back: every later read would differ
+			out.step = i
+			out.key = classify(op, class, writer, "got-ok-want-notfound", gm, want, stored)
+			out.detail = fmt.Sprintf("step %d %s on %s key: memory accepted it (the expired value is live again), redis has no such key; history: %s", i, op, class, histString(ops[:i+1]))
+			return out
+		}
 		if nm != nr {
+			out.step = i
 			switch {
 			case nr == nw:
 				_, symptom := sameExact(op, gm, want)
 				if symptom == "" {
 					symptom = "mem=" + nm
 				}
-				out.key = classify(op, class, writer, symptom, gm, want)
+				out.key = classify(op, class, writer, symptom, gm, want, stored)
 			case nm == nw:
 				out.key = fmt.Sprintf("C13/redis/%s/on=%s/memory-and-model=%s/redis=%s", op.ttlTag(), class, short(nm), short(nr))
 			default:
@@ -182,6 +191,8 @@ func short(s string) string {
 
 func finishDiff(t vkit.TB, c Case, out diffOut) {
 	if out.key != "" {
+		c.Ops = c.Ops[:out.step+1]
+		c, out.detail = minimize(out.key, out.detail, c, func(ops []Op) (string, string) { o := runDiff(ops); return o.key, o.detail })
 		vkit.Violation(t, out.key, out.detail, c)
 		vkit.Case("known:"+out.key, false, "")
 		return
